@@ -24,7 +24,7 @@ import (
 type c16Case struct {
 	Kind      string      `json:"kind"` // orf | bagorf | phase | sched
 	Seqs      []string    `json:"seqs"`
-	Orf       string      `json:"orf,omitempty"` // "" = none supplied
+	Orf       string      `json:"orf,omitempty"`  // "" = none supplied
 	Orfs      []string    `json:"orfs,omitempty"` // several reference ORFs, in this order (instead of Orf)
 	Translate bool        `json:"translate,omitempty"`
 	Reverse   bool        `json:"reverse,omitempty"`
